@@ -17,7 +17,7 @@ META = {
     "assumptions": ["the relations are the ones in the statement; Python's dict.fromkeys defines 'first occurrence of every element'"],
     "exhaustive": {"quick": True, "thorough": True},
     "floors": {
-        "quick": {"channel_pairs": 256, "channel_pairs_large_index": 400, "channel_triples": 4096, "qubit_pairs": 900, "qubit_lookalike_pairs": 10, "edge_handed_list_edits": 200, "edge_pairs": 20000, "sequences": 3900},
+        "quick": {"channel_pairs": 256, "channel_pairs_large_index": 400, "channel_triples": 4096, "qubit_pairs": 900, "qubit_lookalike_pairs": 10, "edge_handed_list_edits": 200, "edge_pairs": 20000, "sequences": 3900, "channel_identifier_sequences": 250},
         "thorough": {"channel_pairs": 256, "channel_pairs_large_index": 400, "channel_triples": 4096, "edge_pairs": 60000, "sequences": 39000},
     },
 }
@@ -158,6 +158,7 @@ def run_edges(acc: Acc, shard: Dict[str, Any]):
 def run_sequences(acc: Acc, shard: Dict[str, Any]):
     from qce_circuit.utilities.array_manipulation import unique_in_order
     from qce_circuit.connectivity.intrf_channel_identifier import QubitIDObj, EdgeIDObj
+    from qce_circuit.structure.intrf_circuit_operation import ChannelIdentifier, QubitChannel
     rng = random.Random(shard["seed"])
     pools = [
         lambda: list(range(6)),
@@ -166,9 +167,18 @@ def run_sequences(acc: Acc, shard: Dict[str, Any]):
         lambda: [QubitIDObj(n) for n in ("D1", "D2", "Z1", "X1", "D1", "Z1")],
         lambda: [EdgeIDObj(QubitIDObj("D1"), QubitIDObj("Z1")), EdgeIDObj(QubitIDObj("Z1"), QubitIDObj("D1")), EdgeIDObj(QubitIDObj("D2"), QubitIDObj("Z1")), "x", 3, (1, 2)],
         lambda: [1, 1.0, True, 2, 2.0, "1"],
+        # channel identifiers, the elements the library itself de-duplicates (CircuitGraphBranch.channel_identifiers): the ALL wildcard is
+        # equal to, but hashed differently from, the specific channels of its qubit - whatever is kept, the ORDER of the kept elements is the
+        # input order (seeded change C19-r12: sorted(set(xs), key=xs.index) moves a wildcard ahead of another qubit's identifier)
+        lambda: [ChannelIdentifier(_id=0, _channel=QubitChannel.MICROWAVE), ChannelIdentifier(_id=1, _channel=QubitChannel.MICROWAVE),
+                 ChannelIdentifier(_id=0, _channel=QubitChannel.ALL), ChannelIdentifier(_id=1, _channel=QubitChannel.FLUX),
+                 ChannelIdentifier(_id=2, _channel=QubitChannel.ALL), ChannelIdentifier(_id=0, _channel=QubitChannel.FLUX)],
     ]
     for i in range(shard["n"]):
         pool = rng.choice(pools)()
+        if isinstance(pool[0], ChannelIdentifier):
+            rng.shuffle(pool)
+            acc.count("channel_identifier_sequences")
         size = rng.randint(1, len(pool))
         alphabet = pool[:size]
         xs = [rng.choice(alphabet) for _ in range(rng.randint(0, 30))]
